@@ -70,6 +70,11 @@ def st_history(draw, maxn):
         else:
             kind = draw(st.sampled_from([1, 1, 4, 7, 30000, 10000, 0]))
             tags = draw(st.sampled_from([[], [["t", "a"]], [["e", IDS[0]]]]))
+            if draw(st.integers(0, 3)) == 0:
+                # names another author of the history: in a NIP-26 delegation tag (the delegator is not the author: NIP-09
+                # gives it no right to delete) or in a p tag
+                o = draw(st.sampled_from([x for x in AUTH if x != a] or AUTH))
+                tags = tags + [draw(st.sampled_from([["delegation", o, "kind=%d" % kind, "00" * 64], ["p", o]]))]
             if kind == 30000:
                 tags = tags + [["d", draw(st.sampled_from(["x", "y"]))]]
             ev = E.free(eid, a, kind, ts, tags)
@@ -324,4 +329,61 @@ class Backlog(Sub):
         return Result(viol, nt, ["groups:%d" % len(groups)])
 
 
-SUBCHECKS = [Deletion(), Backlog()]
+class LongHistory(Sub):
+    """The deleter has hundreds of events between the referenced one and the deletion: the reference is still honoured,
+    nothing else of that long history (and no foreign event) goes."""
+    name = "long-history"
+    examples = {"quick": 24, "thorough": 192}
+    shards = {"quick": 8, "thorough": 16}
+    rule = ("non-trivial = >= 500 events of the deleting author newer than the referenced own event and older than the "
+            "deletion, which also references a foreign event")
+
+    mode = "enumerate"
+    exhaustive = True
+
+    def enumerate(self, tier):
+        sizes = [100, 512, 513, 700] if tier == "quick" else [100, 511, 512, 513, 700, 1100, 2500]
+        for backend in ("kv", "sql"):
+            for n in sizes:
+                for pos in (0, 1):
+                    for ref_foreign in (False, True):
+                        if ref_foreign or pos == 0:
+                            yield [backend, n, pos, ref_foreign]
+
+    def run_case(self, case):
+        return H.run(self._run, case)
+
+    async def _run(self, case):
+        backend, n, pos, ref_foreign = case
+        a, b = AUTH[0], AUTH[1]
+        viol = []
+        async with H.Rig(backend, validators=[]) as rig:
+            target = E.free("aa" * 32, a, 1, E.T0, [["t", "a"]])
+            foreign = E.free("bb" * 32, b, 1, E.T0 + 1, [])
+            early = E.free("cc" * 32, a, 1, E.T0 - 5, [])
+            for ev in (early, target, foreign):
+                await rig.add(ev, pump=False)
+            for i in range(n):
+                await rig.add(E.free("%064x" % (0x5000 + i), a, 1 if i % 3 else 7, E.T0 + 2 + i, []), pump=False)
+            await rig.settle()
+            refs = [["e", target["id"]]]
+            if ref_foreign:
+                refs.insert(pos % 2, ["e", foreign["id"]])
+            ok, why = await rig.add(E.free("dd" * 32, a, 5, E.T0 + n + 10, refs))
+            await rig.settle()
+            stored = await rig.dump()
+            if target["id"] in stored:
+                viol.append(V("%s-own-event-not-deleted:long-history" % backend, "a deletion removes the referenced events of its author",
+                              fillers=n, ok=ok, why=why))
+            gone = [i for i in [foreign["id"], early["id"]] + ["%064x" % (0x5000 + i) for i in range(n)] if i not in stored]
+            if gone:
+                viol.append(V("%s-wrongly-deleted:long-history" % backend, "a deletion removes only referenced events of its own author",
+                              fillers=n, gone=[g[-6:] for g in gone[:5]]))
+            if not viol:
+                got = await rig.query([{"ids": [target["id"]]}])
+                if got:
+                    viol.append(V("%s-deleted-event-still-served:long-history" % backend, "a deleted event is no longer served", fillers=n))
+        return Result(viol, n >= 500 and ref_foreign, ["backend:" + backend, "fillers:%d" % n])
+
+
+SUBCHECKS = [Deletion(), Backlog(), LongHistory()]
